@@ -6,6 +6,7 @@ mod probes;
 mod props;
 mod report;
 mod rng;
+mod tok;
 mod univ;
 
 use report::Report;
